@@ -89,6 +89,13 @@ def run_case(ctx, case_seed):
             half = len(specs) // 2
             for si, (cat, md) in enumerate(specs):
                 rec = box.cassette.create_new_recording(cat)
+                foreign_id, foreign_day = hrng.random() < 0.2, hrng.choice(['20260101', '20251231'])     # (drawn for every cassette alike)
+                if kind != 's3' and foreign_id:
+                    # a recording made elsewhere and copied here under the id it was given there (S3 style '<category>/<day>/<unique>')
+                    import uuid
+                    from playback.recordings.memory.memory_recording import MemoryRecording as _MR
+                    rec = _MR(u'%s/%s/%s' % (cat, foreign_day, uuid.uuid1().hex))
+                    ctx.count('recordings_with_foreign_style_ids')
                 rec.set_data('x', md['tok'])
                 rec.add_metadata(dict(md))
                 box.cassette.save_recording(rec)
@@ -153,6 +160,31 @@ def run_case(ctx, case_seed):
                 judge_listing(ctx, reader, got, must, may, limit, kind, w, tok_of)
                 if limit is None and not may:
                     per_cassette_tokens.setdefault(qi, {})[kind + ':' + prefix] = sorted(tok_of[r] for r in got if r in tok_of)
+            # two lazily evaluated lookups with different filters in flight on one cassette object, consumed alternately
+            if len(queries) >= 2 and saved:
+                irng = random.Random(case_seed + 99)
+                (cat_a, flt_a), (cat_b, flt_b) = [(q[0], q[1]) for q in irng.sample(queries, 2)]
+                w = {'case_seed': case_seed, 'cassette': kind, 'prefix': prefix, 'interleaved': [[cat_a, flt_a], [cat_b, flt_b]]}
+                try:
+                    gens = [iter(reader.iter_recording_ids(cat_a, metadata=flt_a)), iter(reader.iter_recording_ids(cat_b, metadata=flt_b))]
+                    got2 = [[], []]
+                    alive = [0, 1]
+                    while alive:
+                        g = irng.choice(alive)
+                        try:
+                            got2[g].append(next(gens[g]))
+                        except StopIteration:
+                            alive.remove(g)
+                except Exception as ex:
+                    ctx.violation('interleaved listings on %s cassette raised %s' % (kind, type(ex).__name__), w)
+                else:
+                    ctx.count('interleaved_listings', 2)
+                    for g, (c_, f_) in enumerate(((cat_a, flt_a), (cat_b, flt_b))):
+                        verdicts = [(rid, ref_match(f_ or {}, md)) for rid, c, md in saved if c == c_]
+                        must = set(r for r, v in verdicts if v is True)
+                        may = set(r for r, v in verdicts if v == UNSPEC)
+                        if not (must <= set(got2[g]) <= (must | may)) or len(got2[g]) != len(set(got2[g])):
+                            ctx.violation('a listing consumed while another listing of the same %s cassette was in flight is not exact' % kind, dict(w, listing=g))
     for qi, by in per_cassette_tokens.items():
         vals = list(by.values())
         ctx.count('cross_cassette_comparisons')
